@@ -23,7 +23,9 @@ NextBlob == IF files = {} THEN 1 ELSE (CHOOSE m \in BlobPks : \A x \in BlobPks :
 
 StOf(s, f, k, m, p) ==
     [streams |-> s, files |-> f, blobs |-> { x.blob : x \in f }, keys |-> k, links |-> {}, mps |-> m,
-     periods |-> p, adps |-> { [pk |-> x.pk, period |-> x.pk] : x \in p }]
+     periods |-> p, adps |-> { [pk |-> x.pk, period |-> x.pk] : x \in p },
+     \* every "fa" file carries one index-error row (the handlers cascade them with the file)
+     errors |-> { [pk |-> x.pk, media |-> x.pk] : x \in { y \in f : y.name = "fa" } }]
 Cur == StOf(streams, files, keys, mps, periods)
 
 Init == streams = {} /\ files = {} /\ keys = {} /\ mps = {} /\ periods = {}
